@@ -1095,3 +1095,210 @@ Proof.
 Qed.
 
 End Calls.
+
+(* ================================================================ *)
+(** * Simulation: statements                                         *)
+
+Section StmtSim.
+Variable B : benv.
+
+Definition WF (s : pst) : Prop := scs s <> [] /\ sused s = [].
+
+Definition SIM (s : pst) (r : option stmt) (s' : pst) : Prop :=
+  serrs s' = [] -> WF s ->
+  sused s' = [] /\ fns s' = fns s /\
+  match r with
+  | Some st => stmt_sok B (fns s) st /\ scope_stmt (tabs_of B (fns s)) st (abs s) = Some (abs s')
+  | None => abs s' = abs s
+  end.
+
+Lemma scs_of_frames s s' : frames s' = frames s -> scs s <> [] -> scs s' <> [].
+Proof. unfold frames. intros H N E. rewrite E in H. destruct (scs s); [contradiction|discriminate H]. Qed.
+
+#[local] Hint Rewrite frames_with_cs frames_upd frames_adv frames_apnl frames_serr_at frames_serr frames_assert_eol
+  frames_passert frames_scope_set frames_mark frames_collect frames_push_scope frames_pop_scope frames_ty_err_here
+  frames_validate_scope frames_validate_var_decl : frames.
+
+(* normalise abs / fns / sused of a state built with the cursor-level helpers *)
+Ltac norm := autorewrite with abs fns sused serrs in *.
+
+Lemma typed_decl_sim s d s' : parse_typed_decl B s = Ok d s' -> serrs s' = [] -> sused s = [] ->
+  abs s' = abs s /\ fns s' = fns s /\ sused s' = [] /\ snd d <> None.
+Proof.
+  unfold parse_typed_decl. intros H Q U.
+  destruct (p_type B (adv (adv (snd (passert T_IDENT s))))) as [t s2| |] eqn:P; try discriminate H.
+  destruct (p_type_full B _ _ _ P) as (A & F & U2); [norm; exact U|].
+  destruct t; apply Ok_inj in H as [E1 E2]; subst; [|norm; discriminate Q].
+  norm. repeat split; auto. discriminate.
+Qed.
+
+Lemma typed_decl_stmt_sim s r s' : parse_typed_decl_stmt B s = Ok r s' -> SIM s r s'.
+Proof.
+  unfold parse_typed_decl_stmt. intros H Q [N U].
+  destruct (parse_typed_decl B s) as [[[name dpos] t] s1| |] eqn:P; try discriminate H.
+  apply Ok_inj in H as [E1 E2]; subst. norm.
+  pose proof (typed_decl_sn B _ _ _ P) as N1.
+  destruct t as [ty|].
+  - destruct (validate_var_decl B name dpos false s1) as [ok s2] eqn:V.
+    destruct ok.
+    + norm. destruct (assert_eol_ne _ Q) as [E _]. rewrite E in *. norm.
+      destruct (serrs_validate_var_decl _ _ _ _ _ _ _ V Q) as [_ ->].
+      destruct (N1 Q) as [Q0 F1].
+      destruct (typed_decl_sim _ _ _ P Q U) as (A1 & F & U1 & _).
+      split; [exact U1|]. split; [exact F|]. split; [exact I|].
+      simpl. rewrite <- A1, <- F. apply declare_sim; [rewrite V; reflexivity|apply (scs_of_frames s); assumption].
+    + destruct (serrs_validate_var_decl _ _ _ _ _ _ _ V Q) as [X _]. discriminate X.
+  - destruct (typed_decl_sim _ _ _ P Q U) as (_ & _ & _ & X). exfalso. apply X. reflexivity.
+Qed.
+
+Lemma inferred_decl_stmt_sim s r s' : parse_inferred_decl_stmt B s = Ok r s' -> SIM s r s'.
+Proof.
+  unfold parse_inferred_decl_stmt. intros H Q [N U].
+  set (s1 := adv (adv (snd (passert T_IDENT s)))) in H.
+  destruct (p_toplevel B s1) as [v s2| |] eqn:P; try discriminate H.
+  pose proof (p_toplevel_sn B _ _ _ P) as N2.
+  destruct v as [t|]; [|apply Ok_inj in H as [E1 E2]; subst; norm; discriminate Q].
+  destruct (tyerr_s B TS_decl_none t (pos s2)) eqn:TE; [apply Ok_inj in H as [E1 E2]; subst; norm; discriminate Q|].
+  destruct (validate_var_decl B _ _ false s2) as [ok s3] eqn:V.
+  destruct ok; apply Ok_inj in H as [E1 E2]; subst; norm.
+  - destruct (assert_eol_ne _ Q) as [E _]. rewrite E in *. norm.
+    destruct (serrs_validate_var_decl _ _ _ _ _ _ _ V Q) as [_ ->].
+    destruct (N2 Q) as [Q1 F2].
+    destruct (p_toplevel_full B _ _ _ P Q) as (Tk & Uv & F & U2); [unfold s1; norm; exact U|].
+    assert (A1 : abs s1 = abs s) by (unfold s1; norm; reflexivity).
+    assert (F1 : fns s1 = fns s) by (unfold s1; norm; reflexivity).
+    split; [exact U2|]. split; [congruence|]. split.
+    + split; [rewrite <- F1; apply expr_sok_of; exact Tk|eexists; exact TE].
+    + simpl. rewrite <- A1, Uv. simpl. rewrite <- F1, <- F. apply declare_sim; [rewrite V; reflexivity|].
+      apply (scs_of_frames s1); [exact F2|]. apply (scs_of_frames s); [unfold s1; autorewrite with frames; reflexivity|exact N].
+  - destruct (serrs_validate_var_decl _ _ _ _ _ _ _ V Q) as [X _]. discriminate X.
+Qed.
+
+Lemma fhas_fmark m n f : fhas m (fmark n f) = fhas m f.
+Proof. induction f as [|x f IH]; simpl; [reflexivity|]. destruct (str_eqb (fst x) n); simpl; [reflexivity|]. rewrite IH. reflexivity. Qed.
+Lemma existsb_fhas_cmark m n G : existsb (fhas m) (cmark n G) = existsb (fhas m) G.
+Proof.
+  induction G as [|f G IH]; simpl; [reflexivity|]. destruct (fhas n f); simpl; [rewrite fhas_fmark; reflexivity|]. rewrite IH. reflexivity.
+Qed.
+Lemma cvisible_cmark m n G : cvisible m (cmark n G) = cvisible m G.
+Proof. unfold cvisible. rewrite existsb_fhas_cmark. reflexivity. Qed.
+Lemma cvisible_fold m vs : forall G, cvisible m (fold_left (fun G n => cmark n G) vs G) = cvisible m G.
+Proof. induction vs as [|v vs IH]; intro G; simpl; [reflexivity|]. rewrite IH. apply cvisible_cmark. Qed.
+Lemma use_vars_app a b G : use_vars (a ++ b) G = obind (use_vars a G) (use_vars b).
+Proof.
+  unfold use_vars. rewrite forallb_app, fold_left_app.
+  destruct (forallb (fun n => cvisible n G) a) eqn:FA; simpl; [|reflexivity].
+  assert (E : forallb (fun n => cvisible n (fold_left (fun G n => cmark n G) a G)) b = forallb (fun n => cvisible n G) b).
+  { induction b as [|x b IHb]; simpl; [reflexivity|]. rewrite cvisible_fold, IHb. reflexivity. }
+  rewrite E. reflexivity.
+Qed.
+Lemma use_vars_nil G : use_vars [] G = Some G.
+Proof. reflexivity. Qed.
+
+Lemma visible_mark_scopes n l : visible (mark_scopes n l) = visible l.
+Proof.
+  unfold visible. induction l as [|sc l IH]; simpl; [reflexivity|].
+  destruct (has_var n (sc_vars sc)); simpl; [|rewrite IH; reflexivity].
+  f_equal. induction (sc_vars sc) as [|v vs IHv]; simpl; [reflexivity|].
+  destruct (str_eqb (v_name v) n); simpl; [reflexivity|]. rewrite IHv. reflexivity.
+Qed.
+Lemma env_of_mark n s : env_of B (mark n s) = env_of B s.
+Proof. unfold env_of, mark. simpl. rewrite visible_mark_scopes. reflexivity. Qed.
+Lemma scs_fold_mark l : forall s0, visible (scs (fold_right mark s0 l)) = visible (scs s0).
+Proof. induction l as [|x l IH]; intro s0; simpl; [reflexivity|]. rewrite visible_mark_scopes. apply IH. Qed.
+Lemma env_of_collect s c : env_of B (collect s c) = env_of B s.
+Proof.
+  unfold env_of, collect, upd, with_cs. simpl. rewrite scs_fold_mark. simpl.
+  assert (F : forall l s0, fns (fold_right mark s0 l) = fns s0) by (induction l; intro; simpl; auto).
+  rewrite F. reflexivity.
+Qed.
+Lemma env_of_cs s f : env_of B (upd f s) = env_of B s. Proof. reflexivity. Qed.
+
+Lemma p_index_env left s a s' : p_index B left s = Ok a s' -> env_of B s' = env_of B s.
+Proof. unfold p_index, expr_call. intro H. destruct (parse_index_or_slice _ _ _ _ _ _) as [[x c]|]; [|discriminate H]. apply Ok_inj in H as [_ ->]. apply env_of_collect. Qed.
+Lemma p_dot_env left s a s' : p_dot B left s = Ok a s' -> env_of B s' = env_of B s.
+Proof. unfold p_dot, expr_call. intro H. destruct (parse_dot _ _ _) as [[x c]|]; [|discriminate H]. apply Ok_inj in H as [_ ->]. apply env_of_collect. Qed.
+
+Lemma assign_target_loop_sim : forall fuel tok n s t s',
+  assign_target_loop B fuel tok n s = Ok (Some t) s' -> serrs s' = [] -> sused s = [] -> tree_ok (env_of B s) n ->
+  exists extra, tvars t = tvars n ++ extra /\ use_vars extra (abs s) = Some (abs s') /\
+                tree_ok (env_of B s) t /\ fns s' = fns s /\ sused s' = [] /\ env_of B s' = env_of B s.
+Proof.
+  induction fuel as [|f IH]; intros tok n s t s' H Q U Hn; [discriminate|]. cbn [assign_target_loop] in H.
+  assert (D : Ok (Some n) s = Ok (Some t) s' -> exists extra, tvars t = tvars n ++ extra /\ use_vars extra (abs s) = Some (abs s') /\
+                tree_ok (env_of B s) t /\ fns s' = fns s /\ sused s' = [] /\ env_of B s' = env_of B s).
+  { intro E. apply Ok_inj in E as [E1 E2]. injection E1 as <-. subst s'. exists []. rewrite app_nil_r. repeat split; auto. }
+  destruct (ct s); try exact (D H).
+  - destruct (tyerr_s B _ _ _); [discriminate H|].
+    destruct (p_index B n s) as [x s1| |] eqn:P; try discriminate H.
+    destruct x as [n'|]; [|discriminate H].
+    pose proof (assign_target_loop_sn B _ _ _ _ _ _ H Q) as [Q1 _].
+    destruct (p_index_full B _ _ _ _ P Q1 U Hn) as (i & -> & Ht & Uv & F1 & U1).
+    pose proof (p_index_env _ _ _ _ P) as E1.
+    destruct (IH _ _ _ _ _ H Q U1) as (extra & Ev & Uv2 & Ht2 & F2 & U2 & E2); [rewrite E1; exact Ht|].
+    exists (tvars i ++ extra). simpl in Ev. rewrite Ev, <- app_assoc. split; [reflexivity|].
+    rewrite use_vars_app, Uv. simpl. split; [exact Uv2|]. rewrite E1 in Ht2, E2. repeat split; auto; congruence.
+  - destruct (p_dot B n s) as [x s1| |] eqn:P; try discriminate H.
+    destruct x as [n'|]; [|discriminate H].
+    pose proof (assign_target_loop_sn B _ _ _ _ _ _ H Q) as [Q1 _].
+    destruct (p_dot_full B _ _ _ _ P Q1 U Hn) as (k & -> & Ht & A1 & F1 & U1).
+    pose proof (p_dot_env _ _ _ _ P) as E1.
+    destruct (IH _ _ _ _ _ H Q U1) as (extra & Ev & Uv2 & Ht2 & F2 & U2 & E2); [rewrite E1; exact Ht|].
+    exists extra. simpl in Ev. split; [exact Ev|]. rewrite <- A1. split; [exact Uv2|]. rewrite E1 in Ht2, E2. repeat split; auto; congruence.
+Qed.
+
+Lemma assign_stmt_sim s r s' : parse_assign_stmt B s = Ok r s' -> SIM s r s'.
+Proof.
+  unfold parse_assign_stmt. intros H Q [N U].
+  destruct (is_func _ s); [apply Ok_inj in H as [E1 E2]; subst; norm; discriminate Q|].
+  destruct (parse_assign_target B s) as [tg s1| |] eqn:PT; try discriminate H.
+  destruct tg as [target|]; [|apply Ok_inj in H as [E1 E2]; subst; norm; exfalso].
+  2:{ unfold parse_assign_target in PT.
+      destruct (str_eqb _ _); [apply Ok_inj in PT as [_ ->]; norm; discriminate Q|].
+      destruct (negb _); [apply Ok_inj in PT as [_ ->]; norm; discriminate Q|].
+      (* the loop returned nil: an error was recorded by p_index / p_dot *)
+      revert PT Q. generalize (S (pos (adv s))) (pos s) (TVar (tlit (cur (cs s)))) (mark (tlit (cur (cs s))) (adv s)).
+      induction n as [|f IH]; intros tok n0 s0 PT Q; [discriminate PT|]. cbn [assign_target_loop] in PT.
+      destruct (ct s0); try discriminate PT.
+      - destruct (tyerr_s B _ _ _); [apply Ok_inj in PT as [_ ->]; norm; discriminate Q|].
+        destruct (p_index B n0 s0) as [x s2| |] eqn:P; try discriminate PT.
+        destruct x; [exact (IH _ _ _ PT Q)|]. apply Ok_inj in PT as [_ ->].
+        unfold p_index, expr_call in P. destruct (parse_index_or_slice _ _ _ _ _ _) as [[a c']|] eqn:PI; [|discriminate P].
+        apply Ok_inj in P as [<- ->]. rewrite serrs_collect in Q.
+        exact (index_or_slice_nil _ _ (proj1 (expr_nil _ _)) _ _ _ _ _ PI Q).
+      - destruct (p_dot B n0 s0) as [x s2| |] eqn:P; try discriminate PT.
+        destruct x; [exact (IH _ _ _ PT Q)|]. apply Ok_inj in PT as [_ ->].
+        unfold p_dot, expr_call in P. destruct (parse_dot _ _ _) as [[a c']|] eqn:PI; [|discriminate P].
+        apply Ok_inj in P as [<- ->]. rewrite serrs_collect in Q. exact (dot_nil _ _ _ _ PI Q). }
+  destruct (p_toplevel B (adv (snd (passert T_ASSIGN s1)))) as [v s3| |] eqn:P2; try discriminate H.
+  destruct v as [value|]; [|apply Ok_inj in H as [E1 E2]; subst; norm; exfalso].
+  2:{ unfold p_toplevel, expr_call in P2. destruct (parse_toplevel _ _ _ _) as [[a c']|] eqn:PI; [|discriminate P2].
+      apply Ok_inj in P2 as [<- ->]. rewrite serrs_collect in Q.
+      exact (toplevel_nil _ _ (proj1 (expr_nil _ _)) _ _ _ PI Q). }
+  apply Ok_inj in H as [E1 E2]; subst. norm.
+  destruct (assert_eol_ne _ Q) as [E _]. rewrite E in *.
+  destruct (tyerr_s B TS_assign_type _ _) eqn:TE; [norm; discriminate Q|].
+  pose proof (p_toplevel_sn B _ _ _ P2 Q) as [Q2 _]. norm.
+  destruct (passert T_ASSIGN s1) as [ok sa] eqn:A. simpl in *.
+  destruct (passert_ne _ _ _ _ A Q2) as [_ ->].
+  (* the target *)
+  unfold parse_assign_target in PT.
+  destruct (str_eqb _ _) eqn:US; [apply Ok_inj in PT as [_ ->]; norm; discriminate Q2|].
+  destruct (scope_get _ (adv s)) eqn:SG; cbn [negb] in PT; [|apply Ok_inj in PT as [_ ->]; norm; discriminate Q2].
+  set (name := tlit (cur (cs s))) in *.
+  assert (Hn : tree_ok (env_of B (mark name (adv s))) (TVar name)).
+  { simpl. rewrite mem_visible. rewrite scope_get_abs in SG. unfold cvisible in SG. apply andb_true_iff in SG as [_ SG].
+    change (existsb (fhas name) (abs (mark name (adv s))) = true). norm. rewrite existsb_fhas_cmark. exact SG. }
+  destruct (assign_target_loop_sim _ _ _ _ _ _ PT Q2) as (extra & Ev & Uv & Ht & F1 & U1 & E1); [norm; exact U|exact Hn|].
+  destruct (p_toplevel_full B _ _ _ P2 Q) as (Tv & Uv2 & F3 & U3); [norm; exact U1|].
+  norm.
+  split; [exact U3|]. split; [congruence|]. split.
+  - split; [|split].
+    + rewrite <- (fns_mark name (adv s)) at 1. apply expr_sok_of. exact Ht.
+    + rewrite <- F1. apply expr_sok_of. exact Tv.
+    + eexists; exact TE.
+  - simpl. rewrite Ev. simpl. rewrite (use_vars_app [name] extra).
+    assert (U0 : use_vars [name] (abs s) = Some (cmark name (abs s))).
+    { unfold use_vars. simpl. rewrite scope_get_abs in SG. norm. rewrite SG. reflexivity. }
+    rewrite U0. simpl. rewrite Uv. simpl. exact Uv2.
+Qed.
